@@ -1081,6 +1081,15 @@ input ItemFilter {
 W22 = [dict(_world("W22-remote-schema-client", _W22_SDL, "query Items($first: Int, $filter: ItemFilter) {\n  items(first: $first, filter: $filter) {\n    id\n    name\n  }\n}"), remote=True),
        dict(_world("W22b-remote-schema-graphqlschema", _W22_SDL, "", {"target_file_path": "schema_types.py"}, strategy="graphqlschema"), remote=True)]
 
+# projects whose output directory is named like a package the generated code imports (a schema module kept under graphql/ is the
+# natural layout of a server project): how imports are grouped must not depend on whether that directory is still empty
+W23 = [dict(_world("W23-graphqlschema-under-graphql-dir", _W11_SDL, "", {"target_file_path": "schema_types.py"}, strategy="graphqlschema"),
+            target_dir="graphql"),
+       dict(_world("W23b-client-under-graphql-dir", _W22_SDL, "query Items($first: Int, $filter: ItemFilter) {\n  items(first: $first, filter: $filter) {\n    id\n    name\n  }\n}",
+                   {"enable_custom_operations": True}), target_dir="graphql"),
+       dict(_world("W23c-client-under-pydantic-dir", _W22_SDL, "query Items($first: Int, $filter: ItemFilter) {\n  items(first: $first, filter: $filter) {\n    id\n    name\n  }\n}"),
+            target_dir="pydantic")]
+
 # projects that exercise process-level machinery (plugins, configured scalars, custom operations, the other strategy): used as the
 # "earlier generation in the same interpreter" of other projects
 STATEFUL_NEIGHBOURS = ["W19-builtin-scalar-names-configured", "W5-upload-scalars-mixin", "W10-plugins-5", "W9-custom-operations",
@@ -1088,7 +1097,7 @@ STATEFUL_NEIGHBOURS = ["W19-builtin-scalar-names-configured", "W5-upload-scalars
 
 
 def all_worlds() -> List[dict]:
-    return [W1, W2, W2b, W3, W4, W5, W7, W8, W8s, W8t, W9, W9k, W15] + W10 + W11 + W12 + W13 + W14 + W16 + W17 + [W18, W19, W21] + W22
+    return [W1, W2, W2b, W3, W4, W5, W7, W8, W8s, W8t, W9, W9k, W15] + W10 + W11 + W12 + W13 + W14 + W16 + W17 + [W18, W19, W21] + W22 + W23
 
 
 def by_id(wid: str) -> dict:
